@@ -1243,6 +1243,22 @@ func (env *ExprEnv) call(e *ast.CallExpr) TV {
 		k := env.coerce(env.eval(e.Args[1]), mt.Key(), v.sortOf(mt.Key()))
 		dom, _ := v.mapArrays(mt)
 		return TV{T: fmt.Sprintf("(and (not (= %s 0)) (select %s %s))", m.T, v.rd(env.heapNow(), dom, m.T), k.T), Ty: types.Typ[types.Bool], Sort: "Bool"}
+	case "locked":
+		// locked(x.mu): this thread holds lock field mu of object x (read or write)
+		se, ok := e.Args[0].(*ast.SelectorExpr)
+		if !ok {
+			fail("locked(x.mu) expected")
+		}
+		x := env.eval(se.X)
+		if x.Ty == nil {
+			fail("locked: untyped owner")
+		}
+		ot := types.Unalias(x.Ty)
+		if p, ok := ot.Underlying().(*types.Pointer); ok {
+			ot = p.Elem()
+		}
+		v.regArray("LOCKED", "(Array Int Bool)")
+		return TV{T: v.rd(env.heapNow(), "LOCKED", v.lockKey(typeKey(ot), se.Sel.Name, x.T)), Ty: types.Typ[types.Bool], Sort: "Bool"}
 	case "lastarg":
 		f := env.eval(e.Args[0])
 		if f.Sort != "Int" {
